@@ -38,7 +38,7 @@ pub fn run(args: &[String]) {
         let (z, alpha) = (rng.felt(), rng.felt());
         let pi = PublicInput { log_n_steps: Felt::ZERO, range_check_min: Felt::ZERO, range_check_max: Felt::ZERO, layout: Felt::ZERO, dynamic_params: None, segments: vec![],
             padding_addr: Felt::from(1 + rng.below(50)), padding_value: rng.felt(), main_page: Page(cells), continuous_page_headers: headers };
-        match guarded(|| pi.get_public_memory_product_ratio(z, alpha, Felt::from(size))) {
+        match guarded(|| pi.get_public_memory_product_ratio(z, alpha, Felt::from(size)).expect("product ratio")) {
             Ok(out) => t.line(&json!({"ev":"pubmem","cells": pi.main_page.iter().map(|c| vec![hex(&c.address), hex(&c.value)]).collect::<Vec<_>>(),
                 "page_prods": hexs(pi.continuous_page_headers.iter().map(|h| &h.prod)), "pages_len": pages_len, "pad": vec![hex(&pi.padding_addr), hex(&pi.padding_value)],
                 "z": hex(&z), "alpha": hex(&alpha), "size": hex(&Felt::from(size)), "out": hex(&out)})),
